@@ -2,6 +2,7 @@ package main
 
 import (
 	"fmt"
+	"os"
 	"sort"
 	"strings"
 
@@ -79,9 +80,7 @@ func (e *Engine) resetAtRest(c *Config) {
 	for _, f := range c.stack {
 		for i := range f.loops {
 			f.loops[i].unw = 0
-			if !e.loopMayAlloc(f.fn, f.loops[i].h) {
-				f.loops[i].iter = 0
-			}
+			f.loops[i].iter = 0
 		}
 	}
 	c.fuel = false
@@ -323,6 +322,27 @@ func (e *Engine) runHarness(h *ssa.Function) *SchedInfo {
 			}
 		}
 		si.AnyEn = append(si.AnyEn, anyEn)
+		if e.profile != nil {
+			var sb strings.Builder
+			for _, g := range e.gors {
+				fmt.Fprintf(&sb, " g%d:%d", g.idx, len(g.order))
+			}
+			live := 0
+			for _, cd := range cands {
+				if !cd.fire.IsFalse() {
+					live++
+				}
+			}
+			fmt.Fprintf(os.Stderr, "step %d: resting%s firing=%d terms=%d instrs=%d\n", t, sb.String(), live, TS.next, e.instrs)
+			if os.Getenv("VERIF_DUMPREST") != "" && t == 8 {
+				for _, g := range e.gors {
+					for _, k := range g.order {
+						c := g.rest[k]
+						fmt.Fprintf(os.Stderr, "   REST g%d %s ph=%d key=%s\n", g.idx, e.posOf(c), c.phase, k)
+					}
+				}
+			}
+		}
 		var fires []*Term
 		for _, cd := range cands {
 			fires = append(fires, cd.fire)
